@@ -47,6 +47,7 @@ func runC03(c *Ctx) {
 	ruleLSNMonotone(c, "C03.24")
 	ruleOneRecordPerRow(c, "C03.25")
 	ruleRowRecordsAtomic(c, "C03.26")
+	c01RootRelocation(c, "C03.27")
 	ruleErrorsNotDropped(c, "C03.11", "storage.(*BTree).insert", "storage.(*RelationService).Insert")
 }
 
